@@ -63,6 +63,7 @@ class Scenario:
     fix_etag: bool = True
     init_table: str = "healthy"
     fix_orphan: bool = True
+    fix_meta_in_try: bool = True
     fix_gc: bool = True
     fix_gcfail: bool = True
     fix_interrupt: bool = True
@@ -623,7 +624,7 @@ def scn_constants(scn: Scenario) -> Dict[str, Any]:
     R = tlc.Raw
     return {"Actors": R("<- ScnActors"), "Role": R("<- ScnRole"), "Idx": R("<- ScnIdx"), "Handle": R("<- ScnHandle"),
             "Prog": R("<- ScnProg"), "Backend": scn.backend, "LockKind": scn.lock_kind, "ClockMode": scn.clock_mode,
-            "MaxClock": 1000000, "MaxAttempts": scn.max_attempts, "InitSnaps": scn.init_snaps, "InitTable": scn.init_table, "FixOrphanMeta": scn.fix_orphan,
+            "MaxClock": 1000000, "MaxAttempts": scn.max_attempts, "InitSnaps": scn.init_snaps, "InitTable": scn.init_table, "FixOrphanMeta": scn.fix_orphan, "FixMetaInTry": scn.fix_meta_in_try,
             "FixStamp": scn.fix_stamp, "FixEtag": scn.fix_etag, "FixGCOrder": scn.fix_gc, "FixGCFail": scn.fix_gcfail, "FixInterrupt": scn.fix_interrupt, "FaultKinds": set(), "DamageKinds": set(), "CrashOK": False, "FaultBudget": 0, "Grace": scn.grace, "OldFiles": False, "PreFiles": {970 + k for k in range(1, scn.prebuilt + 1)}, "Lease": 60000, "MarkerTimeout": 86400000}
 
 
